@@ -7,6 +7,7 @@ package checks
 import (
 	"bytes"
 	"fmt"
+	"github.com/pokt-network/posmint/store/rootmulti"
 	"runtime"
 	"sort"
 	"strings"
@@ -129,14 +130,36 @@ func runC13(h rmHist, st *c13stats) (out []*c12result) {
 	lazy := h.Reopen == 2
 	for vi, cs := range h.Choice {
 		v := int64(vi + 1)
-		if h.Reopen > 0 && v > 1 {
+		if (h.Reopen == 1 || h.Reopen == 2) && v > 1 {
 			// the node was restarted since its last commit
 			if s, err = rmOpenLazy(db, h.N, h.Pruning, -1, lazy); err != nil {
 				return fail("reopen-between-commits", "reopening before commit %d fails: %v", v, err)
 			}
 		}
+		if h.Reopen == 4 {
+			// restarted, and the pruning options are handed over after the stores were loaded
+			// (rootmulti.SetPruning passes them on to the loaded substores)
+			if s, err = rmOpenSetAfter(db, h.N, h.Pruning); err != nil {
+				return fail("reopen-between-commits", "reopening before commit %d fails: %v", v, err)
+			}
+		}
 		for i, c := range cs {
 			rmApplyChoice(s.kv(i), models[i], c)
+		}
+		if h.Reopen == 3 {
+			// historical reads since the last commit, the way the application serves them: a copy of
+			// the multistore loaded at every older version that is still there (reading must not
+			// leave anything behind that a crash in the coming Commit would trip over)
+			for u := int64(1); u < v-1; u++ {
+				if !rmRetained(u, v-1, h.Pruning) {
+					continue
+				}
+				cp := (*s.rs.CopyStore()).(*rootmulti.Store)
+				func() {
+					defer func() { recover() }()
+					_ = cp.LoadVersion(u)
+				}()
+			}
 		}
 		pre := db.Snapshot()
 		db.StartLog()
@@ -304,6 +327,16 @@ func classifyCrash(cs crashState, log []crashdb.Unit) string {
 // every commit every crash state is materialised, the application reopened (Info tells which block
 // to replay, as Tendermint's handshake would), the interrupted block re-executed and one more block run.
 
+func withQueries(b chain.Block) chain.Block {
+	q := []chain.Event{
+		{Kind: "query", Path: "/custom/pos/validators", Data: []byte(`{"Page":1,"Limit":100}`), Height: -2},
+		{Kind: "query", Path: "/custom/auth/supply", Height: -1},
+		{Kind: "query", Path: "/store/auth/key", Data: append([]byte{0x01}, chain.Addr(3)...), Height: -2},
+	}
+	b.Events = append(q, b.Events...)
+	return b
+}
+
 func c13appHistories() [][]chain.Block {
 	stake := chain.Block{Events: []chain.Event{{Kind: "tx", Tx: &chain.TxSpec{Msg: "stake", From: 2, Amount: min}}}}
 	send := chain.Block{Events: []chain.Event{{Kind: "tx", Tx: &chain.TxSpec{Msg: "send", From: 3, To: 2, Amount: 5}}}}
@@ -319,6 +352,9 @@ func c13appHistories() [][]chain.Block {
 		{miss, miss, send},
 		{gov, unst, award},
 		{award, send, stake, unst},
+		// historical queries (module and store queries one and two blocks back) before the transactions
+		// of a block: whatever serving them touches must not matter to a crash in the Commit that follows
+		{send, stake, withQueries(send), withQueries(unst)},
 	}
 }
 
@@ -483,7 +519,8 @@ func C13(tier string) int {
 		names, reopen int
 		what          string
 	}
-	modes := []mode{{0, 0, ""}, {0, 1, " [reopened before every commit]"}, {0, 2, " [reopened lazily before every commit]"}, {1, 0, " [stores acc, accounts, a]"}}
+	modes := []mode{{0, 0, ""}, {0, 1, " [reopened before every commit]"}, {0, 2, " [reopened lazily before every commit]"}, {1, 0, " [stores acc, accounts, a]"},
+		{0, 3, " [older versions loaded on a copy before every commit]"}, {0, 4, " [reopened before every commit, pruning options set after loading]"}}
 	for _, md := range modes {
 		md := md
 		atomic.StoreInt32(&rmNameVariant, int32(md.names))
@@ -578,7 +615,7 @@ func C13(tier string) int {
 	run.Set("commits", st.commits)
 	run.Set("crash_states", st.crashStates)
 	run.Set("jobs", desc)
-	run.Set("rule", "for every write history, every commit, every crash state = pre-commit database + a subset of substores fully committed + at most one substore between its save batch and its prune batch (commutation closure over substore order), plus the complete commit; each crash state is reopened, checked for a single consistent version, the interrupted block re-executed and one more block committed; a second fault model lets the k-th write of every Commit fail with a panic (later writes, e.g. from deferred functions, succeed) and judges the database left behind the same way; the whole enumeration is repeated with the store reopened before every commit (eager and lazy loading) and with store names that are proper prefixes of each other; every crash state is distinct by construction (history, commit, set of applied write units); non-trivial = a proper partial state: at least one and not all of the commit's write units reached the database")
+	run.Set("rule", "for every write history, every commit, every crash state = pre-commit database + a subset of substores fully committed + at most one substore between its save batch and its prune batch (commutation closure over substore order), plus the complete commit; each crash state is reopened, checked for a single consistent version, the interrupted block re-executed and one more block committed; a second fault model lets the k-th write of every Commit fail with a panic (later writes, e.g. from deferred functions, succeed) and judges the database left behind the same way; the whole enumeration is repeated with the store reopened before every commit (eager and lazy loading; with the pruning options handed over after loading), with every older retained version loaded on a CopyStore before every commit (historical reads), and with store names that are proper prefixes of each other; every crash state is distinct by construction (history, commit, set of applied write units); non-trivial = a proper partial state: at least one and not all of the commit's write units reached the database")
 	run.Sample("N=2 pruning=(0,0) v1[k1=a | k2=a] v2[del k1 | -], crash during commit 2 at [done={s1}+s2:1/2]")
 	run.Assume("a Batch.Write is atomic (goleveldb journal); Write and WriteSync are not distinguished", "units of different substores touch disjoint key prefixes (checked on every log)", "MemDB stands in for the on-disk database")
 	return run.Finish()
